@@ -1331,6 +1331,28 @@ def p_act( ctx ):
         res.ok( csrc, peeks[0], 'pending input is tested with source.peek() is [not] None (%d sites)' % len( peeks ))
     def engine_loop( x ):
         return isinstance( x, ast.For ) and dotted( x.iter ) in ( 'self.engine', 'engine' )
+    # the framing engine is (re-)entered only with something to parse: it is suspended awaiting a symbol, and entered without one it detects
+    # "no progress", is discarded, and the rest of the half-received frame is parsed as a new header.  On the branch where the non-blocking
+    # receive gave NOTHING ( <rcvd> is None; the source was empty ) the engine loop must be unreachable.
+    rc = [ s_ for s_ in ast.walk( nx ) if isinstance( s_, ast.Assign ) and is_call_to( s_.value, 'self.recvfrom' ) ]
+    if len( rc ) != 1:
+        raise AnalysisError( 'client.__next__: the non-blocking receive ( ... = self.recvfrom( timeout=0 )) not found' )
+    tg = rc[0].targets[0]
+    RCVD = tg.elts[0].id if isinstance( tg, ast.Tuple ) and isinstance( tg.elts[0], ast.Name ) else ( tg.id if isinstance( tg, ast.Name ) else None )
+    eloops = [ n for n in cfg.nodes if n.kind == 'for' and engine_loop( n.stmt ) ]
+    nothing = []
+    for n in cfg.nodes:
+        if n.kind == 'test' and isinstance( n.expr, ast.Compare ) and len( n.expr.ops ) == 1 and dotted( n.expr.left ) == RCVD \
+           and isinstance( n.expr.comparators[0], ast.Constant ) and n.expr.comparators[0].value is None and isinstance( n.expr.ops[0], ( ast.Is, ast.IsNot )):
+            lab = 'true' if isinstance( n.expr.ops[0], ast.Is ) else 'false'
+            nothing += [ m for m, l in cfg.succ[n] if l == lab ]
+    if RCVD is None or not nothing or not eloops:
+        raise AnalysisError( 'client.__next__: the `%s is [not] None` branch after the receive, or the engine loop, not found' % RCVD )
+    if any( e in cfg.reachable( nothing ) for e in eloops ):
+        res.bad( csrc, eloops[0].stmt, 'client.__next__ enters `for ... in self.engine` although the receive returned nothing ( %s is None ) and the source is empty' % RCVD,
+                 'polled between two chunks of one frame ( a timeout that expires mid-frame, then another attempt ) the suspended engine is resumed without a symbol: "no progress" is raised, the engine discarded, and the remaining bytes of the frame are framed as a new header' )
+    else:
+        res.ok( csrc, eloops[0].stmt, 'client.__next__: the framing engine is never entered on the branch where the receive gave nothing ( %s is None )' % RCVD )
     tries = [ t for t in walk_no_nested( nx ) if isinstance( t, ast.Try ) and any( engine_loop( x ) for x in ast.walk( t )) ]
     if len( tries ) != 1:
         raise AnalysisError( 'client.__next__: framing try not found' )
@@ -2172,6 +2194,43 @@ def t_attrkeys( ctx ):
     return res
 
 
+# ---------------------------------------------------------------------------------------- C03: T-RETAG
+
+@rule( 'T-RETAG', props=( 'C03', ), floor=2 )
+def t_retag( ctx ):
+    """setup_tag: every store into an instance's attribute table stores the CONFIGURED Attribute ( val.attribute / val['attribute'] ), and a store
+    guarded by `<configured> is not <existing>` never stores <existing> back - that is a no-op which leaves the tag bound to the Attribute of an
+    earlier configuration (other type, other length)"""
+    res = Result( 'T-RETAG' )
+    src = ctx.src( LOGIX )
+    st = src.get( 'setup_tag' )
+    VAL = st.args.args[1].arg
+    def configured( e ):
+        return e is not None and ( pmatch( e, "%s.attribute" % VAL ) is not None or pmatch( e, "%s['attribute']" % VAL ) is not None )
+    stores = []
+    for a in ast.walk( st ):
+        if isinstance( a, ast.Assign ):
+            for t in a.targets:
+                if isinstance( t, ast.Subscript ) and isinstance( t.value, ast.Attribute ) and t.value.attr == 'attribute':
+                    stores.append(( a, t ))
+    if len( stores ) < 2:
+        raise AnalysisError( 'setup_tag: the stores into <instance>.attribute[ ... ] (creation and replacement) not found (%d)' % len( stores ))
+    for a, t in stores:
+        guards = [ g for g in src.ancestors( a ) if isinstance( g, ast.If ) ]
+        differs = [ g for g in guards if isinstance( g.test, ast.Compare ) and len( g.test.ops ) == 1 and isinstance( g.test.ops[0], ast.IsNot )
+                    and ( configured( g.test.left ) or configured( g.test.comparators[0] )) ]
+        if configured( a.value ):
+            res.ok( src, a, 'setup_tag: %s = the configured Attribute' % norm_text( t ))
+        elif differs:
+            other = differs[0].test.comparators[0] if configured( differs[0].test.left ) else differs[0].test.left
+            res.bad( src, a, 'setup_tag: under `%s` the table entry is assigned %s' % ( norm_text( differs[0].test ), norm_text( a.value )),
+                     'the existing Attribute is stored back over itself%s: configuring an existing tag name again with another type or length ( A INT[5], then A DINT[50] ) reports "Replaced" but keeps serving the old array' % (
+                         '' if dotted( a.value ) == dotted( other ) else ' (or something other than the configured one)' ))
+        else:
+            res.bad( src, a, 'setup_tag: %s = %s' % ( norm_text( t ), norm_text( a.value )), 'the attribute table must receive the configured Attribute' )
+    return res
+
+
 # ---------------------------------------------------------------------------------------- C06: P-PROCEED
 
 def _returns_ok( src, cls_node, fn, seen=None ):
@@ -2403,7 +2462,7 @@ def d_pathstop( ctx ):
     if len( loops ) != 1:
         raise AnalysisError( 'resolve: loop over the path segments not found' )
     lp = loops[0]; TERM = lp.target.id
-    brk = [ s for s in lp.body if isinstance( s, ast.If ) and any( isinstance( b, ast.Break ) for b in s.body ) ]
+    brk = [ s for s in lp.body if isinstance( s, ast.If ) and any( isinstance( b, ( ast.Break, ast.Continue )) for b in s.body ) ]
     # the accumulator: the dict literal with the three keys
     acc = [ s for s in fn.body if isinstance( s, ast.Assign ) and isinstance( s.value, ast.Dict ) and { try_fold( k ) for k in s.value.keys } == { 'class', 'instance', 'attribute' } ]
     if not acc or not isinstance( acc[0].targets[0], ast.Name ):
@@ -2412,8 +2471,8 @@ def d_pathstop( ctx ):
     ATT = fn.args.args[1].arg
     import itertools
     def cells():
-        for c, i, a, mode, t in itertools.product(( 5, None ), ( 1, None ), ( 3, None ), ( False, True, 1 ), ( True, False )):
-            yield c, i, a, mode, t, { RES: { 'class': c, 'instance': i, 'attribute': a }, ATT: mode, TERM: ( { 'attribute': 7 } if t else { 'element': 0 } ) }
+        for c, i, a, mode, t in itertools.product(( 5, None ), ( 1, None ), ( 3, None ), ( False, True, 1 ), ( True, False, 'symbolic' )):
+            yield c, i, a, mode, t, { RES: { 'class': c, 'instance': i, 'attribute': a }, ATT: mode, TERM: ( { 'symbolic': 'foo' } if t == 'symbolic' else { 'attribute': 7 } if t else { 'element': 0 } ) }
     if len( brk ) != 1 or lp.body.index( brk[0] ) != 0:
         res.bad( src, lp, 'early exit of the segment walk', 'exactly one early-exit test is expected at the top of the segment loop' )
     else:
@@ -2425,17 +2484,24 @@ def d_pathstop( ctx ):
                 got = bool( fold( brk[0].test, env ))
             except NoFold as exc:
                 raise AnalysisError( 'resolve: early-exit condition outside the modelled subset: %s' % exc )
-            want = c is not None and i is not None and ( a is not None or not mode or ( mode is not True and not t ))
+            want = c is not None and i is not None and ( a is not None or not mode or ( mode is not True and t is False ))
+            if t == 'symbolic':
+                want = False		# a symbolic segment names a (sub)tag: it is resolved or refused, never skipped
             if got != want:
                 wrong.append(( c, i, a, mode, t, got ))
         res.cells += n
         if wrong:
             c, i, a, mode, t, got = wrong[0]
             res.bad( src, brk[0], 'early exit: class %s, instance %s, attribute %s, attribute argument %r, segment %s an attribute -> %s (%d of %d cells differ)' % (
-                'known' if c else 'unknown', 'known' if i else 'unknown', 'known' if a else 'unknown', mode, 'carries' if t else 'does not carry', 'stop' if got else 'continue', len( wrong ), n ),
-                     'the walk must continue while a wanted attribute may still come: stopping early ignores an explicit attribute segment (every numerically addressed tag is then served from the default attribute), continuing too long consumes the element segment' )
+                'known' if c else 'unknown', 'known' if i else 'unknown', 'known' if a else 'unknown', mode, 'is symbolic, not' if t == 'symbolic' else 'carries' if t else 'does not carry', 'stop' if got else 'continue', len( wrong ), n ),
+                     ( 'a symbolic segment behind a resolved tag is skipped: a request for A.foo ( foo unknown ) is served from A instead of being refused as an unknown tag, and with both A and A.B configured A.B silently reads and writes A; ' if t == 'symbolic' else '' ) + 'the walk must continue while a wanted attribute may still come: stopping early ignores an explicit attribute segment (every numerically addressed tag is then served from the default attribute), continuing too long consumes the element segment' )
         else:
             res.ok( src, brk[0], 'early exit agrees with the specified table on all %d cells of class x instance x attribute x mode x segment-kind' % n )
+        # skipping is per segment: a `break` also skips every LATER segment, symbolic ones included ( A[1].foo )
+        if any( isinstance( b, ast.Break ) for b in ast.walk( brk[0] )):
+            res.bad( src, brk[0], 'resolve leaves the segment walk ( break ) once the address is complete', 'a symbolic segment behind an element index is never looked at: A[1].foo ( foo unknown ) is served from A[1] instead of being refused as an unknown tag' )
+        else:
+            res.ok( src, brk[0], 'segments behind a complete address are skipped one by one ( continue ): a later symbolic segment is still resolved or refused' )
     # default application after the loop
     dfl = [ s for s in fn.body if isinstance( s, ast.If ) and any( isinstance( b, ast.Assign ) and pmatch( b.targets[0], "%s['attribute']" % RES ) is not None and dotted( b.value ) == ATT for b in s.body ) ]
     if len( dfl ) != 1:
